@@ -48,7 +48,7 @@ def run_(tier):
     if c.quick():
         caps, nk = [1, 2, 3], {"cache": 4, "ecache": 3, "expirable": 3}
     else:
-        caps, nk = [1, 2, 3, 4], {"cache": 5, "ecache": 4, "expirable": 4}
+        caps, nk = [1, 2, 3, 4, 5], {"cache": 6, "ecache": 5, "expirable": 5}
 
     # ---- pass A: model check LRUImpl (refinement, invariants) and emit one behaviour per edge
     def impl(variant):
@@ -86,7 +86,7 @@ def run_(tier):
         return c.finish(rule="stopped at the first call that did not return")
 
     # ---- pass B: recorded executions of the real code, validated against the contract
-    ntr = 120 if c.quick() else 900
+    ntr = 120 if c.quick() else 4000
     steps = 250 if c.quick() else 400
     trace = c.path("trace", "lru.ndjson")
     c.run_vh(["drive", "lru", "-seed", c.seed, "-n", ntr, "-out", trace, "-x", "steps=%d" % steps])
